@@ -1,7 +1,9 @@
 #!/venv/bin/python
 """Evaluate one seeded change: tools/seed_eval.py <seeded-dir> CHECK [CHECK...]
 Applies <dir>/patch.diff to /repo, runs <dir>/demo.py (must exit 1), runs the given checks (quick tier, no evidence),
-reverts /repo, runs demo.py again (must exit 0).  Prints one line per check."""
+reverts /repo, runs demo.py again (must exit 0).  Prints one line per check.
+With SEED_WORKTREE=1 the patch is applied to a throw-away git worktree of /repo's HEAD (under /var/tmp) and the checks are
+pointed at it with VERIF_REPO, so that /repo is never touched (for use while other runs read /repo)."""
 import sys, os, subprocess, json, time
 d = os.path.abspath(sys.argv[1])
 checks = sys.argv[2:]
@@ -9,23 +11,31 @@ tier = os.environ.get('SEED_TIER', 'quick')
 def sh(cmd, **kw):
     return subprocess.run(cmd, shell=True, capture_output=True, text=True, **kw)
 RESULTS = {}
-assert sh('git -C /repo status --porcelain').stdout.strip() == '', '/repo not clean'
-r = sh(f'git -C /repo apply {d}/patch.diff')
+WT = os.environ.get('SEED_WORKTREE') and f'/var/tmp/wt_seed_{os.getpid()}'
+TARGET = WT or '/repo'
+if WT:
+    assert sh(f'git -C /repo worktree add -q --detach {WT} HEAD').returncode == 0
+else:
+    assert sh('git -C /repo status --porcelain').stdout.strip() == '', '/repo not clean'
+r = sh(f'git -C {TARGET} apply {d}/patch.diff')
 if r.returncode:
     print('PATCH DOES NOT APPLY:', r.stderr[-300:]); sys.exit(2)
 try:
-    dm = sh(f'NUTILS_SRC=/repo/src PYTHONDONTWRITEBYTECODE=1 PYTHONPYCACHEPREFIX=/var/tmp/seedpyc OMP_NUM_THREADS=1 timeout 600 /venv/bin/python {d}/demo.py')
+    dm = sh(f'NUTILS_SRC={TARGET}/src PYTHONDONTWRITEBYTECODE=1 PYTHONPYCACHEPREFIX=/var/tmp/seedpyc OMP_NUM_THREADS=1 timeout 600 /venv/bin/python {d}/demo.py')
     print(f'demo with change: exit={dm.returncode} {(dm.stdout.strip().splitlines() or [""])[-1][:200]}')
     for c in checks:
         t0 = time.time()
-        r = sh(f'cd /verif && timeout 3000 ./check {c} --tier {tier} --no-evidence')
+        r = sh(f'cd /verif && VERIF_REPO={TARGET} timeout 3000 ./check {c} --tier {tier} --no-evidence' + (f' --workers {os.environ["SEED_WORKERS"]}' if os.environ.get('SEED_WORKERS') else ''))
         out = r.stdout
         mons = sorted({l.split('monitor=')[1].split(' mechanism')[0] for l in out.splitlines() if 'monitor=' in l})
         verdict = [l for l in out.splitlines() if l.startswith(('HELD', 'INCONCLUSIVE', 'HARNESS'))]
         print(f'{c}: exit={r.returncode} violations={out.count("VIOLATION property=")} wall={time.time()-t0:.0f}s monitors={mons[:4]} {verdict[:1]}')
         RESULTS[c] = dict(tier=tier, exit=r.returncode, violations=out.count('VIOLATION property='), monitors=mons[:6], caught=r.returncode == 1)
 finally:
-    sh('git -C /repo checkout -- .')
+    if WT:
+        sh(f'git -C /repo worktree remove --force {WT}; git -C /repo worktree prune')
+    else:
+        sh('git -C /repo checkout -- .')
 try:
     ev = json.load(open(d + '/eval.json'))
 except Exception:
